@@ -283,16 +283,40 @@ func (r *Reader) parseWorksheet(data []byte, name string, index int) (*Sheet, er
 	maxRow := 0
 	maxCol := 0
 
+	// The r attribute is optional on rows and cells: a cell without one sits
+	// right after the previous cell of its row (column A if it is the first), a
+	// row without one right after the previous row. positions holds, per row and
+	// cell, the grid position worked out in the first pass.
+	type cellPos struct {
+		col, row int
+		ok       bool
+	}
+	positions := make([][]cellPos, len(ws.SheetData.Rows))
+	nextRow := 0
+
 	// First pass: find dimensions
-	for _, row := range ws.SheetData.Rows {
+	for ri, row := range ws.SheetData.Rows {
 		if row.R > maxRow {
 			maxRow = row.R
 		}
-		for _, cell := range row.Cells {
-			col, cellRow, err := ParseCellRef(cell.R)
-			if err != nil {
-				continue
+		impliedRow := nextRow
+		if row.R > 0 {
+			impliedRow = row.R - 1
+		}
+		nextRow = impliedRow + 1
+		positions[ri] = make([]cellPos, len(row.Cells))
+		nextCol := 0
+		for ci, cell := range row.Cells {
+			col, cellRow := nextCol, impliedRow
+			if cell.R != "" {
+				var err error
+				col, cellRow, err = ParseCellRef(cell.R)
+				if err != nil {
+					continue
+				}
 			}
+			nextCol = col + 1
+			positions[ri][ci] = cellPos{col: col, row: cellRow, ok: true}
 			if col > maxCol {
 				maxCol = col
 			}
@@ -332,13 +356,13 @@ func (r *Reader) parseWorksheet(data []byte, name string, index int) (*Sheet, er
 	}
 
 	// Second pass: populate cells
-	for _, row := range ws.SheetData.Rows {
-		for _, cellXML := range row.Cells {
-			// Place the cell at the row and column its reference names.
-			col, rowIdx, err := ParseCellRef(cellXML.R)
-			if err != nil {
+	for ri, row := range ws.SheetData.Rows {
+		for ci, cellXML := range row.Cells {
+			// Place the cell at the row and column its reference names (or implies).
+			if !positions[ri][ci].ok {
 				continue
 			}
+			col, rowIdx := positions[ri][ci].col, positions[ri][ci].row
 			if rowIdx < 0 || rowIdx >= len(sheet.Rows) {
 				continue
 			}
@@ -408,6 +432,10 @@ func (r *Reader) parseWorksheet(data []byte, name string, index int) (*Sheet, er
 					cell.IsMergeRoot = true
 					cell.MergeRows = mr.EndRow - mr.StartRow + 1
 					cell.MergeCols = mr.EndCol - mr.StartCol + 1
+				} else {
+					// A covered cell shows nothing, whatever value the file still
+					// stores for it (RawValue keeps it): every rendering reads Value
+					cell.Value = ""
 				}
 			}
 		}
@@ -498,6 +526,8 @@ func (r *Reader) Text() (string, error) {
 
 // TextWithOptions extracts text content with the specified options.
 func (r *Reader) TextWithOptions(opts ExtractOptions) (string, error) {
+	// fieldText keeps a cell value inside its field of the delimited text
+	fieldText := strings.NewReplacer("\r\n", " ", "\n", " ", "\r", " ", "\t", " ")
 	delimiter := opts.Delimiter
 	if delimiter == "" {
 		delimiter = "\t"
@@ -539,7 +569,9 @@ func (r *Reader) TextWithOptions(opts ExtractOptions) (string, error) {
 				if cell.IsMerged && !cell.IsMergeRoot {
 					continue
 				}
-				result.WriteString(cell.Value)
+				// One row per line, one cell per field: a line break or tab inside a
+				// value is written as a blank
+				result.WriteString(fieldText.Replace(cell.Value))
 			}
 		}
 	}
